@@ -754,6 +754,9 @@ func (n *RaftNode) deleteEntryLogPeriodically() {
 
 func (n *RaftNode) deleteEntryLog() error {
 	if !n.isLeader() {
+		// the tolerance period counts how long THIS leader has seen the group unhealthy without interruption:
+		// a node that is not the leader does not look at the members, so a period started earlier must not go on
+		n.tolerateStartTime.Store(0)
 		return nil
 	}
 	sp, err := n.Store.Snapshot()
